@@ -62,7 +62,23 @@ class AngularModel:
             mod_funcs = {g.name: g.node for g in repo.funcs.values()
                          if g.module == "angular" and g.cls is None and not g.is_lambda and isinstance(g.node, ast.FunctionDef)}
             mod_classes = {c_.name: c_ for c_ in mi.tree.body if isinstance(c_, ast.ClassDef)} if hasattr(mi, "tree") else {}
-            d = e4.string_dispatch(f.node.body, "method", mi.globals, mod_funcs, mod_classes)
+            # the dispatch variable: the method argument, or a local derived from it (a normalised spelling)
+            cands = ["method"] + [st.targets[0].id for st in ast.walk(f.node)
+                                  if isinstance(st, ast.Assign) and len(st.targets) == 1 and isinstance(st.targets[0], ast.Name)
+                                  and st.targets[0].id != "method"
+                                  and any(isinstance(x, ast.Name) and x.id == "method" for x in ast.walk(st.value))]
+            d = None
+            for cand in cands:
+                d = e4.string_dispatch(f.node.body, cand, mi.globals, mod_funcs, mod_classes)
+                if d is not None and len(d[0]) >= 2 and d[1] and isinstance(d[1][-1], ast.Raise):
+                    self.dvar = getattr(self, "dvar", {})
+                    self.dvar[name] = cand
+                    break
+                d = None
+            if d is None:
+                d = e4.string_dispatch(f.node.body, "method", mi.globals, mod_funcs, mod_classes)
+                self.dvar = getattr(self, "dvar", {})
+                self.dvar[name] = "method"
             if d is None:
                 raise AnalysisError(f"unrecognised idiom: no `method == \"...\"` dispatch chain in AngularGrid.{name}")
             chain, else_body, node = d
@@ -198,6 +214,24 @@ def rule_dispatch(rep, repo, prefix="R2.", model=None):
             rep.violation(prefix + "table-family", "angular.AngularGrid._load_precomputed_angular_grid", key,
                           f"method {key!r} resolves sizes with {fams.get('_get_degree_and_size')} but loads with "
                           f"{fams.get('_load_precomputed_angular_grid')}", repo.rel("angular", m.f_load.node))
+    # every test of the method name in the constructor reads the variable the dispatch reads (a
+    # normalised spelling must not be bypassed by a later test of the raw argument)
+    dv = m.dvar.get("__init__", "method")
+    keyset = set(ref)
+    for n_ in ast.walk(m.f_init.node):
+        if isinstance(n_, ast.Compare) and len(n_.ops) == 1 and isinstance(n_.left, ast.Name):
+            c_ = n_.comparators[0]
+            consts = [c_.value] if isinstance(c_, ast.Constant) else \
+                [e_.value for e_ in c_.elts if isinstance(e_, ast.Constant)] if isinstance(c_, (ast.List, ast.Tuple, ast.Set)) else []
+            if not consts or not set(consts) <= keyset:
+                continue
+            if n_.left.id == dv:
+                rep.ok(prefix + "method-tests-use-dispatch-variable", f"AngularGrid.__init__:{norm(n_)[:40]}",
+                       repo.rel("angular", n_), f"tests `{dv}`")
+            elif dv != "method" or n_.left.id != "method":
+                rep.violation(prefix + "method-tests-use-dispatch-variable", "angular.AngularGrid.__init__", norm(n_)[:50],
+                              f"`{norm(n_)[:70]}` tests `{n_.left.id}` while the tables and caches are selected through "
+                              f"`{dv}`: a spelling that the dispatch accepts takes the other branch here", repo.rel("angular", n_))
     # caches injective
     caches = {}
     for key, br in m.chains["__init__"][0].items():
@@ -308,6 +342,75 @@ def rule_inventory(rep, repo, m, prefix="R1."):
     return total
 
 
+def _four_pi_convention(m):
+    """{method key: True if the stored weights already include 4 pi} -- read off the constructor: the
+    methods whose branch hands the loaded weights on unchanged include it, the others are multiplied
+    by `4 * np.pi` (their stored weights are normalised to one)."""
+    f = m.f_init
+    keys = m.methods()
+    listed = None
+    for n in ast.walk(f.node):
+        test = n.test if isinstance(n, (ast.If, ast.IfExp)) else None
+        if test is None and isinstance(n, ast.Assign) and isinstance(n.value, ast.Compare):
+            test = n.value
+        if isinstance(test, ast.Compare) and len(test.ops) == 1 and isinstance(test.ops[0], ast.In) and \
+                isinstance(test.comparators[0], (ast.List, ast.Tuple, ast.Set)) and \
+                all(isinstance(x, ast.Constant) and x.value in keys for x in test.comparators[0].elts):
+            body_txt = norm(n) if not isinstance(n, ast.Assign) else " ".join(
+                norm(x) for x in ast.walk(f.node) if isinstance(x, (ast.IfExp, ast.If)) and n.targets and
+                norm(x.test) == norm(n.targets[0]))
+            if "4 * np.pi" in norm(f.node) and ("np.pi" in body_txt or isinstance(n, ast.Assign)):
+                listed = {x.value for x in test.comparators[0].elts}
+    if listed is None or "4 * np.pi" not in norm(f.node):
+        raise AnalysisError("unrecognised idiom: AngularGrid.__init__ does not distinguish the methods whose stored "
+                            "weights include 4 pi from those that are multiplied by 4 * np.pi")
+    return {k: (k in listed) for k in keys}
+
+
+def rule_table_invariants(rep, repo, m, prefix="R3."):
+    """Two invariants of every shipped table, computed on the stored columns (no function is integrated):
+    all points have unit norm, and the weights sum to 4 pi (methods whose stored weights include it) or
+    to one (methods that the constructor multiplies by 4 pi)."""
+    import math
+    import numpy as np
+    conv = _four_pi_convention(m)
+    n = 0
+    for key in m.methods():
+        dn, nn = m.tables_for(key)
+        ddir = m.data_dir(key)
+        target = 4 * math.pi if conv[key] else 1.0
+        for size, degree in m.tables[nn].items():
+            fn = m.filename(key, degree, size)
+            path = os.path.join(ddir, fn)
+            if not os.path.exists(path):
+                continue   # reported by R1
+            where = f"src/grid/data/{os.path.basename(ddir)}/{fn}"
+            cons = f"data/{os.path.basename(ddir)}/{fn}"
+            try:
+                with np.load(path) as z:
+                    pts, wts = np.asarray(z["points"], dtype=float), np.asarray(z["weights"], dtype=float)
+            except Exception as e:  # noqa: BLE001
+                rep.violation(prefix + "table-readable", cons, f"{key}:{degree}", f"{fn} cannot be read: {e}", where)
+                continue
+            n += 1
+            total = float(math.fsum(wts)) if wts.size > 1 else float(wts[0]) * len(pts)
+            dev_w = abs(total - target)
+            dev_p = float(np.max(np.abs(np.sqrt(np.sum(pts * pts, axis=1)) - 1.0))) if pts.ndim == 2 and len(pts) else 0.0
+            if dev_w <= 1e-9 * max(1.0, target):
+                rep.ok(prefix + "weights-sum", f"{key}:{degree}:{size}", where, f"sum = {total:.12g}")
+            else:
+                rep.violation(prefix + "weights-sum", cons, f"{key}:{degree}",
+                              f"the stored weights of {fn} sum to {total:.10g}, not to {target:.10g} "
+                              f"({'4 pi' if conv[key] else '1, before the constructor multiplies by 4 pi'}): the grid does "
+                              f"not integrate a constant exactly", where)
+            if dev_p <= 1e-10:
+                rep.ok(prefix + "unit-sphere", f"{key}:{degree}:{size}", where, f"max | |p| - 1 | = {dev_p:.1e}")
+            else:
+                rep.violation(prefix + "unit-sphere", cons, f"{key}:{degree}",
+                              f"{fn}: a point is {dev_p:.3g} away from the unit sphere", where)
+    rep.floor("shipped tables with invariants checked", n, 440)
+
+
 def run(tier="quick", root="/repo", evidence_dir=None, quiet=False):
     rep = Report(PROP, tier, root, EXPLANATION, RULE, assumptions=[
         "np.load + importlib.resources resolve 'grid.data.<dir>' to src/grid/data/<dir> (package layout)",
@@ -316,6 +419,7 @@ def run(tier="quick", root="/repo", evidence_dir=None, quiet=False):
     repo = get_repo(root)
     m = rule_dispatch(rep, repo, prefix="R2.")
     total = rule_inventory(rep, repo, m)
+    rep.attempt(rule_table_invariants, rep, repo, m)
     rep.floor("advertised (method, degree) pairs", total, 440)
     rep.floor("dispatch keys", len(m.methods()), 4)
     rep.extra.update({"methods": m.methods(), "table_sizes": {k: len(v) for k, v in m.tables.items()},
